@@ -24,11 +24,14 @@ def parseOp (t : String) : Option Op := (t.splitOn ",").mapM parseStep
 
 def parseProg (t : String) : Option Prog := if t == "." then some [] else (t.splitOn ";").mapM parseOp
 
-/-- digits = run that caller; letters a, b, c, d = cancel caller 0, 1, 2, 3 if it is waiting for the lock -/
+/-- digits = run that caller; letters a, b, c, d = task.cancel() of caller 0, 1, 2, 3 if it is waiting for the lock;
+    A, B, C, D = its timeout expires there (cancel + transport.close()); X = the transport is closed -/
 def parseSched (t : String) : Option (List SEv) :=
   if t == "." then some [] else t.toList.mapM (fun c =>
     if c.isDigit then some (.run (c.toNat - 48))
-    else if 'a' ≤ c ∧ c ≤ 'j' then some (.cancel (c.toNat - 97)) else none)
+    else if 'a' ≤ c ∧ c ≤ 'j' then some (.cancel (c.toNat - 97))
+    else if 'A' ≤ c ∧ c ≤ 'J' then some (.timeout (c.toNat - 65))
+    else if c == 'X' then some .close else none)
 
 def showEv (e : Ev) : String :=
   let k := match e.act with | .write _ => "W" | .read => "R"
@@ -57,7 +60,7 @@ def handleLine (line : String) : String :=
       let s := if mode == "a" then runEAsync false locking D ps sc else runE false locking D ps sc
       let wire := if s.world.wire.isEmpty then "." else ",".intercalate (s.world.wire.map showEv)
       let lk := match s.lock with | none => "L-" | some i => s!"L{i}"
-      s!"{wire} {showResults ps.length s.finished} {lk} {if allDone ps s then "D1" else "D0"}"
+      s!"{wire} {showResults ps.length s.finished} {lk} {if allDone ps s then "D1" else "D0"}{if s.world.closed then " C1" else ""}"
     | _, _, _ => "bad-op"
   | ["T", cbj, cw, sched] =>
     -- thread-pool timeout protocol: `T <closeBeforeJoin 0|1> <closeWakes 0|1> <sched: c|w letters>` -> `<pc> <lock 0|1> <closed 0|1>`
